@@ -500,6 +500,26 @@ CLAIMED["C11"] = (
     CLAIMED["C11"][3],
 )
 
+CLAIMED["C01"] = (
+    CLAIMED["C01"][0]
+    + " CHECKS: 19 expression-level checks (FURB108/109/110/114/115/121/123/124/136/143/145/149/161/168/169/171/183/188/192) are "
+    "transcribed as matchers over mypy trees annotated with refurb's own type and equivalence verdicts (Model/CheckAst.lean: arity, "
+    "argument kinds, fullnames, tables, every type and is_equivalent demand, the version gates, the exact messages). Proved: a firing "
+    "whose verdict names a row reads as that row's `old` over the hit's operands with the declared classes (matchNNN_instance), hence — "
+    "substitution lemma (eval_instantiate, one induction over the expression language) plus the row's Sound — the flagged expression and "
+    "the replacement have the same outcome wherever the operands evaluate (checkNNN_preserves_behaviour); firings outside the proved rows "
+    "are stated by witness on concrete nodes (FURB123 subclass values, FURB136 bool/int, FURB143 float, FURB145 tuple, FURB188 empty "
+    "suffix, FURB192 ties) or classified as outside the table. On every run the multiset of (code, line, column, message) the matchers "
+    "predict is compared with real refurb's diagnostics, both directions, on refurb's test files, the idiom module with its near misses "
+    "and generated expressions (548 diagnostics over 2922 expression roots quick; 1527 over 7150 thorough).",
+    CLAIMED["C01"][1]
+    + " `den` (reading a node as a value-semantics expression) is trusted and checked against the source text on every named row; "
+    "is_equivalent (EqvSound, C06's subject) and the type verdicts (C05) enter the matcher theorems as hypothesis and annotations; "
+    "statement traversal is not modelled (the harness enumerates expression roots).",
+    CLAIMED["C01"][2] + " + check matchers over annotated mypy trees (substitution lemma) + matcher-vs-refurb diagnostics correspondence",
+    CLAIMED["C01"][3],
+)
+
 def main() -> int:
     m = build()
     (VERIF / "MANIFEST.json").write_text(json.dumps(m, indent=1, ensure_ascii=False) + "\n")
